@@ -585,7 +585,16 @@ func (tr *FnTrans) instr(st *BState, in ssa.Instruction) {
 	case *ssa.Range:
 		tr.vals[x] = Val{T: "nil", Ty: x.Type()}
 	case *ssa.Select:
-		tr.vals[x] = tr.introduce(x.Name(), x.Type(), st.reach, "select")
+		v := tr.introduce(x.Name(), x.Type(), st.reach, "select")
+		if len(v.Tuple) > 0 {
+			lo := int64(0)
+			if !x.Blocking {
+				lo = -1
+			}
+			idx := v.Tuple[0]
+			tr.assume(st.reach, and(tr.ivLe(tr.lit64(lo), idx.T), tr.ivLt(idx.T, tr.lit64(int64(len(x.States))))), "select picks one of its cases")
+		}
+		tr.vals[x] = v
 	case *ssa.Send:
 	case *ssa.Slice:
 		tr.sliceOp(st, x)
@@ -700,8 +709,7 @@ func (tr *FnTrans) unop(st *BState, x *ssa.UnOp) {
 			}
 			tr.vals[x] = Val{T: t, Ty: x.Type()}
 		} else {
-			tr.smt.declareFun("f64_neg", []string{"F64"}, "F64")
-			tr.vals[x] = Val{T: fmt.Sprintf("(f64_neg %s)", v.T), Ty: x.Type()}
+			tr.vals[x] = Val{T: fmt.Sprintf("(- %s)", v.T), Ty: x.Type()}
 		}
 	case token.XOR:
 		if tr.smt.intMode {
@@ -1288,6 +1296,15 @@ func (tr *FnTrans) doCall(st *BState, ci ssa.CallInstruction) Val {
 		}
 	}
 
+	if name == "(time.Duration).Seconds" && len(args) == 1 {
+		// d.Seconds() as a real number (floating point is modelled with real arithmetic)
+		tr.floatUsed = true
+		res := Val{T: tr.smt.define("secs", "F64", fmt.Sprintf("(/ (to_real %s) 1000000000.0)", tr.toMathInt(args[0]))), Ty: sig.Results().At(0).Type()}
+		site.Results = []Val{res}
+		site.After = st.heap
+		tr.usedSpecs["time.Duration.Seconds() = d/1e9 over the reals; float64 arithmetic treated as real arithmetic"] = true
+		return res
+	}
 	spec := tr.eng.lookupSpec(name, cc)
 	if getter := isProtoGetter(cc); getter != nil && spec == nil {
 		res := tr.protoGetter(st, cc, getter, args[0])
